@@ -131,6 +131,13 @@ fn bare_safe(key: &str) -> bool {
 	{
 		return false;
 	}
+	// Check for YAML 1.2 octal integers (0o17).
+	else if key.len() > 2
+		&& key.starts_with("0o")
+		&& key[2..].chars().all(|v| matches!(v, '0'..='7'))
+	{
+		return false;
+	}
 	// Check for floats. Keys that meet all of the following:
 	// - all characters match [0-9e._\-]
 	// - has at most a single period
